@@ -252,3 +252,100 @@ func piece_roundTripDeadline(repo string) (string, error) {
 		"deadline (the Writer's WriteTimeout) -/\n" +
 		"def roundTripDeadlineSetters : List String := [" + strings.Join(names, ", ") + "]\n\n", nil
 }
+
+// piece_newWriter reads the deprecated constructor NewWriter(config WriterConfig): the composite literal of the Writer
+// it returns, field by field — which WriterConfig field (through conversions such as int64(…) / RequiredAcks(…)) each
+// Writer field is taken from.  Fields set from something else than `config.X` are listed with "?".
+func piece_newWriter(ef, wf *ast.File) (string, error) {
+	var fd *ast.FuncDecl
+	for _, d := range wf.Decls {
+		if f, ok := d.(*ast.FuncDecl); ok && f.Recv == nil && f.Name.Name == "NewWriter" {
+			fd = f
+		}
+	}
+	if fd == nil || fd.Body == nil || fd.Type.Params == nil || len(fd.Type.Params.List) != 1 || len(fd.Type.Params.List[0].Names) != 1 {
+		return "", fmt.Errorf("writer.go: NewWriter(config WriterConfig) not found")
+	}
+	param := fd.Type.Params.List[0].Names[0].Name
+	var lit *ast.CompositeLit
+	ast.Inspect(fd.Body, func(n ast.Node) bool {
+		if cl, ok := n.(*ast.CompositeLit); ok {
+			if id, ok := cl.Type.(*ast.Ident); ok && id.Name == "Writer" {
+				lit = cl
+			}
+		}
+		return true
+	})
+	if lit == nil {
+		return "", fmt.Errorf("NewWriter: no Writer{…} literal found")
+	}
+	var source func(e ast.Expr) string
+	source = func(e ast.Expr) string {
+		switch x := e.(type) {
+		case *ast.ParenExpr:
+			return source(x.X)
+		case *ast.CallExpr: // a conversion: T(config.X)
+			if len(x.Args) == 1 {
+				if _, ok := x.Fun.(*ast.Ident); ok {
+					return source(x.Args[0])
+				}
+			}
+		case *ast.SelectorExpr:
+			if id, ok := x.X.(*ast.Ident); ok && id.Name == param {
+				return x.Sel.Name
+			}
+		}
+		return "?"
+	}
+	var rows []string
+	for _, el := range lit.Elts {
+		kv, ok := el.(*ast.KeyValueExpr)
+		if !ok {
+			return "", fmt.Errorf("NewWriter: positional Writer literal")
+		}
+		k, ok := kv.Key.(*ast.Ident)
+		if !ok {
+			continue
+		}
+		rows = append(rows, fmt.Sprintf("(%q, %q)", k.Name, source(kv.Value)))
+	}
+	sort.Strings(rows)
+	return "/-- writer.go NewWriter(config): Writer field ↦ the WriterConfig field it is taken from (\"?\" = something else) -/\n" +
+		"def newWriterMap : List (String × String) := [" + strings.Join(rows, ", ") + "]\n\n", nil
+}
+
+// piece_completeOrder reads (*writeBatch).complete: the batch's error must be stored before the done channel is closed
+// (the callers blocked on done read the error as soon as they wake up).
+func piece_completeOrder(ef, wf *ast.File) (string, error) {
+	fd := findFunc(wf, "writeBatch", "complete")
+	if fd == nil || fd.Body == nil {
+		return "", fmt.Errorf("writer.go: (*writeBatch).complete not found")
+	}
+	errPos, closePos := token.NoPos, token.NoPos
+	ast.Inspect(fd.Body, func(n ast.Node) bool {
+		switch x := n.(type) {
+		case *ast.AssignStmt:
+			for _, l := range x.Lhs {
+				if s, ok := l.(*ast.SelectorExpr); ok && s.Sel.Name == "err" && errPos == token.NoPos {
+					errPos = x.Pos()
+				}
+			}
+		case *ast.CallExpr:
+			if id, ok := x.Fun.(*ast.Ident); ok && id.Name == "close" && len(x.Args) == 1 {
+				if s, ok := x.Args[0].(*ast.SelectorExpr); ok && s.Sel.Name == "done" && closePos == token.NoPos {
+					closePos = x.Pos()
+				}
+			}
+		}
+		return true
+	})
+	if errPos == token.NoPos || closePos == token.NoPos {
+		return "", fmt.Errorf("(*writeBatch).complete: no `b.err = …` / `close(b.done)` found")
+	}
+	v := "false"
+	if errPos < closePos {
+		v = "true"
+	}
+	return "/-- writer.go (*writeBatch).complete stores the batch's error before it closes the done channel -/\n" +
+		"def completeStoresErrFirst : Bool := " + v + "\n\n", nil
+}
